@@ -126,7 +126,14 @@ impl<'a> Remote<'a> {
                     .with(|waker| cx.waker().will_wake(unsafe { (&*waker).assume_init_ref() }))
             {
                 // Waker is already up-to-date, leave it in place.
-                self.header().state.finish_setting_waker::<true>();
+                state = self.header().state.finish_setting_waker::<true>();
+
+                // Same race as below: a completion or cancellation that happened
+                // while we were in the critical section skipped the wake-up.
+                if state.has_result() || state.is_cancelled() {
+                    continue;
+                }
+
                 break Poll::Pending;
             }
 
